@@ -71,6 +71,8 @@ class Op:
             return f"c{self.ctx}.add_resource_factory({t},{self.name!r},{'async' if self.is_async else 'sync'},{self.variant})"
         if self.kind == "look":
             return f"c{self.ctx}.lookup({t},{self.name!r},via={self.api})"
+        if self.kind == "drop":
+            return f"cancel the short-lived listener of c{self.ctx} inside its stream"
         return f"leave(c{self.ctx})"
 
 
@@ -83,6 +85,7 @@ class Alphabet:
     fac: list = field(default_factory=list)  # [(types, name, is_async, variant)]
     look: list = field(default_factory=list)  # [(type, name, api)]
     leave: bool = False
+    drop: bool = False
 
     def options(self, n_ctx: int, live: list) -> list:
         out = []
@@ -96,6 +99,8 @@ class Alphabet:
                 out.append(Op("fac", c, types, name, variant, is_async=is_async))
             for t, name, api in self.look:
                 out.append(Op("look", c, (t,), name, api=api))
+            if self.drop:
+                out.append(Op("drop", c))
         if self.leave and len(live) > 1:
             out.append(Op("leave", live[-1]))
         return out
@@ -190,6 +195,8 @@ class Actor:
         self.finished = anyio.Event()
         self.events = []
         self.listener_scope = None
+        self.extra_scope = None
+        self.extra_events = []
 
     async def _listener(self, *, task_status):
         with anyio.CancelScope() as scope:
@@ -199,11 +206,23 @@ class Actor:
                 async for ev in stream:
                     self.events.append(ev)
 
+    async def _extra_listener(self, *, task_status):
+        """A second, short-lived listener that subscribed BEFORE the permanent one and is
+        cancelled in the middle of its stream by a `drop` operation."""
+        with anyio.CancelScope() as scope:
+            self.extra_scope = scope
+            async with self.ctx.resource_added.stream_events(max_queue_size=100) as stream:
+                task_status.started()
+                async for ev in stream:
+                    self.extra_events.append(ev)
+
     async def run(self, tg, *, task_status):
         try:
             ctx = Context(self.parent_ctx) if self.parent_ctx is not None else Context()
             async with ctx:
                 self.ctx = ctx
+                if self.listen == "extra":
+                    await tg.start(self._extra_listener)
                 if self.listen:
                     await tg.start(self._listener)
                 task_status.started()
@@ -230,6 +249,8 @@ class Actor:
         finally:
             if self.listener_scope is not None:
                 self.listener_scope.cancel()
+            if self.extra_scope is not None:
+                self.extra_scope.cancel()
             self.finished.set()
 
     async def call(self, fn):
@@ -334,10 +355,15 @@ class Engine:
 
         if mf.is_async:
 
-            async def cb():
+            async def produce():
                 v = record()
                 await anyio.sleep(0)
                 return v
+
+            if mf.fid % 2 == 1:
+                cb = produce  # a coroutine function
+            else:
+                cb = lambda: produce()  # noqa: E731 - a plain callable returning a coroutine: just as asynchronous
 
         else:
 
@@ -405,6 +431,29 @@ class Engine:
                 diverge(cls, f"lookup:own-view:extra={extra}:missing={missing}:changed={changed}", detail)
             diverge({"C02"}, f"view:{op.kind}", detail)
 
+    async def check_event_payloads(self, op: Op, step):
+        """"carrying the registered types": every type an event of a resource names must resolve,
+        in that context, to a resource of that name."""
+        if not self.check_events:
+            return
+        for m in self.model:
+            if not m.open:
+                continue
+            actor = self.actors[m.idx]
+            fresh = actor.events[getattr(actor, "payload_checked", 0):]
+            actor.payload_checked = len(actor.events)
+            if not fresh:
+                continue
+            real = await self.view(actor)
+            for e in fresh:
+                if e.is_factory:
+                    continue
+                for t in e.resource_types:
+                    if (t, e.resource_name) not in real:
+                        diverge({"C18"}, f"event-names-a-type-the-resource-is-not-registered-under:{op.kind}:{op.api if op.kind == 'look' else op.variant}",
+                                f"step {step} {op.text()}: event types {[TNAME.get(x, x) for x in e.resource_types]} name {e.resource_name!r}, "
+                                f"but c{m.idx} has no ({TNAME.get(t, t)},{e.resource_name!r})")
+
     def compare_events(self, op: Op, step):
         if not self.check_events:
             return
@@ -461,6 +510,9 @@ class Engine:
         got = type(box.exc) if box.exc is not None else None
         self.last_failed = expect_exc is not None
         if got is not expect_exc:
+            if expect_exc is None and got not in (ResourceConflict, ValueError, TypeError, RuntimeError):
+                # the call is valid, the publication may even have happened, but announcing it blew up
+                diverge({"C03", "C18"}, f"add:{op.variant}:publication-raised:{got.__name__}", f"{op.text()} -> {box.exc!r}")
             diverge({"C03"}, f"add:{op.variant}:raised={got.__name__ if got else None}:expected={expect_exc.__name__ if expect_exc else None}",
                     f"{op.text()} -> {box.exc!r}")
         if expect_exc is None:
@@ -491,6 +543,8 @@ class Engine:
         got = type(box.exc) if box.exc is not None else None
         self.last_failed = expect_exc is not None
         if got is not expect_exc:
+            if expect_exc is None and got not in (ResourceConflict, ValueError, TypeError, RuntimeError):
+                diverge({"C03", "C18"}, f"fac:{op.variant}:publication-raised:{got.__name__}", f"{op.text()} -> {box.exc!r}")
             diverge({"C03"}, f"fac:{op.variant}:raised={got.__name__ if got else None}:expected={expect_exc.__name__ if expect_exc else None}",
                     f"{op.text()} -> {box.exc!r}")
         if expect_exc is None:
@@ -564,6 +618,12 @@ class Engine:
                     diverge({"C02", "C19" if api.startswith("inject") else "C02"},
                             f"paths-disagree:{api}-vs-{op.api}", f"{where}: {api} gave {b2.value!r}/{b2.exc!r}, expected {exp!r}")
 
+    async def op_drop(self, op):
+        sc = self.actors[op.ctx].extra_scope
+        if sc is not None:
+            sc.cancel()
+            await anyio.wait_all_tasks_blocked()
+
     async def op_leave(self, op):
         m = self.model[op.ctx]
         await self.actors[op.ctx].stop()
@@ -584,19 +644,35 @@ class Engine:
                 for step, op in enumerate(self.ops):
                     self.trace.append(op.text())
                     self.last_failed = False
-                    if op.kind == "create":
-                        await self.op_create(op, tg)
-                    elif op.kind == "add":
-                        await self.op_add(op)
-                    elif op.kind == "fac":
-                        await self.op_fac(op)
-                    elif op.kind == "look":
-                        await self.op_look(op, step)
-                    else:
-                        await self.op_leave(op)
-                    await self.compare_views(op, step)
+                    try:
+                        if op.kind == "create":
+                            await self.op_create(op, tg)
+                        elif op.kind == "add":
+                            await self.op_add(op)
+                        elif op.kind == "fac":
+                            await self.op_fac(op)
+                        elif op.kind == "look":
+                            await self.op_look(op, step)
+                        elif op.kind == "drop":
+                            await self.op_drop(op)
+                        else:
+                            await self.op_leave(op)
+                        await self.compare_views(op, step)
+                    except Stop as first:
+                        # the events of this very step are still judged (a defect of another
+                        # property's class must not hide a wrong announcement)
+                        if self.listen and self.check_events:
+                            await anyio.wait_all_tasks_blocked()
+                            try:
+                                await self.check_event_payloads(op, step)
+                                self.compare_events(op, step)
+                            except Stop as second:
+                                d1, d2 = first.div, second.div
+                                raise Stop(Divergence(d1.classes | d2.classes, d1.sig + " + " + d2.sig, d1.detail + " | " + d2.detail))
+                        raise
                     if self.listen:
                         await anyio.wait_all_tasks_blocked()
+                        await self.check_event_payloads(op, step)
                         self.compare_events(op, step)
                 if self.final_probes:
                     step = len(self.ops)
